@@ -356,6 +356,11 @@ def c15_r7(ctx):
             if is_dotted:
                 ctx.check(lv == 0, key(fi, f"ImportFrom module={mt[:50]}"), f"module text {mt[:60]} already carries its leading dots but level={norm(lvl) if lvl is not None else 0}: unparses to `from ..x import` (one level too high)", fi.loc(c),
                           okmsg=f"{fi.key}: dotted module text with level 0")
+            elif mt.endswith(".stem") or mt.endswith("_module_name") or (mt == "module_name" and ms == "client_generators.package"):
+                # a sibling module of the generated package (named after a file of the package / a configured module name)
+                ctx.check(lv == 1, key(fi, f"ImportFrom module={mt[:50]}"), f"`{mt[:60]}` names a sibling module of the generated package but is imported with level={norm(lvl) if lvl is not None else 0}: "
+                          f"`from {mt.split('.')[0][:20]}... import` resolves against sys.path, not against the package (ModuleNotFoundError when the package is imported)", fi.loc(c),
+                          okmsg=f"{fi.key}: sibling module {mt[:40]} with level 1")
             elif absolute in ("typing", "graphql", "pydantic", "enum", "graphql.type.schema"):
                 ctx.check(lv == 0, key(fi, f"ImportFrom module={absolute}"), f"library module {absolute!r} imported with level={norm(lvl) if lvl is not None else 0}: `from .{absolute} import ...` does not exist in the package", fi.loc(c),
                           okmsg=f"{fi.key}: library module {absolute} with level 0")
@@ -907,3 +912,55 @@ def c15_r11(ctx):
             good = bool(vals) and all(isinstance(v, ast.Tuple) and norm(v.elts[0]) == p for v in vals) and all(any(norm(strip_pre(m)).startswith(f"<setattr>({p}, 'slice', _update_node(") for m in o.effects) for o in outs)
             why = "a subscript other than Annotated[T, meta] loses its wrapper (List[X] would become X, so the client returns a list where the annotation says one object)"
         ctx.check(good, key(fi, label), f"[{label}] returns {[norm(v)[:90] for v in vals]}: {why}", fi.loc(), okmsg=f"[{label}] -> {'first element, recursively' if unwrap else 'kept, slice updated'}")
+
+
+@rule("C15.R12", "ClientForwardRefs turns EVERY annotation form that can name an imported class into a string: bare names, subscripts, tuples - arguments and nested positions alike",
+      min_instances=7)
+def c15_r12(ctx):
+    repo = ctx.repo
+    CFR = "contrib.client_forward_refs:ClientForwardRefsPlugin."
+    # (a) argument annotations: each kind is sent through _update_name_to_constant
+    fi = repo.func(CFR + "_rewrite_input_args_to_constants")
+    for kind in ("Name", "Subscript", "Tuple"):
+        def atom(e, kind=kind):
+            t = norm(strip_pre(e))
+            if t.startswith("isinstance(method_def,") or t.startswith("isinstance(method_def, "):
+                return True
+            if t.startswith("isinstance(") and t.endswith(")") and ", ast." in t and not t.startswith("isinstance(method_def"):
+                return t.endswith(f", ast.{kind})")
+            return None
+        outs = [o for o in Interp(fi, atom, is_effect=lambda c: is_name(c.func, "<setattr>")).run() if any("loop body once" in t for t in o.trace)]
+        good = bool(outs) and all(any("_update_name_to_constant(" in norm(strip_pre(e)) and "'annotation'" in norm(strip_pre(e)) for e in o.effects) for o in outs)
+        ctx.check(good, key(fi, f"argument annotation ast.{kind}"), f"an argument annotated with a bare ast.{kind} is not rewritten although the class it names is moved under `if TYPE_CHECKING:` "
+                  "(NameError when the client module is imported)", fi.loc(), okmsg=f"argument annotations of kind ast.{kind} are rewritten")
+    # (b) the rewriter itself: Name -> Constant when imported; Subscript -> slice recursed; Tuple -> every element recursed; anything else unchanged
+    up = repo.func(CFR + "_update_name_to_constant")
+    p = up.node.args.args[1].arg
+
+    def mk(kind, imported=True):
+        def atom(e):
+            t = norm(strip_pre(e))
+            if t.startswith(f"isinstance({p}, ast."):
+                return t == f"isinstance({p}, ast.{kind})"
+            if t == f"{p}.id in self.imported_classes":
+                return imported
+            return None
+        return atom
+    eff = lambda c: is_name(c.func, "<setattr>") or is_name(c.func, "<setitem>") or (isinstance(c.func, ast.Attribute) and c.func.attr == "add")
+    o = [x for x in Interp(up, mk("Name", True), is_effect=eff).run() if x.kind == "return"]
+    ctx.check(bool(o) and all(norm(strip_pre(x.value)) in (f"ast.Constant(value={p}.id)", f"ast.Constant({p}.id)") for x in o) and
+              all(any(norm(strip_pre(e)) == f"self.input_and_return_types.add({p}.id)" for e in x.effects) for x in o), key(up, "imported name"),
+              f"an imported class name must become the string constant of its name and be recorded for the TYPE_CHECKING import: {[x.text()[:100] for x in o]}", up.loc(),
+              okmsg="imported Name -> Constant(name), recorded")
+    o = [x for x in Interp(up, mk("Name", False), is_effect=eff).run() if x.kind == "return"]
+    ctx.check(bool(o) and all(is_name(strip_pre(x.value), p) and not x.effects for x in o), key(up, "other name"), f"a name that is not an imported class must stay as it is: {[x.text()[:100] for x in o]}", up.loc(),
+              okmsg="other Name -> unchanged")
+    o = [x for x in Interp(up, mk("Subscript"), is_effect=eff).run() if x.kind == "return"]
+    ctx.check(bool(o) and all(is_name(strip_pre(x.value), p) and any(norm(strip_pre(e)) == f"<setattr>({p}, 'slice', self._update_name_to_constant({p}.slice))" for e in x.effects) for x in o),
+              key(up, "subscript"), f"Optional[X] / List[X]: the slice must be rewritten recursively: {[x.text()[:120] for x in o]}", up.loc(), okmsg="Subscript -> slice recursed")
+    o = [x for x in Interp(up, mk("Tuple"), is_effect=eff).run() if x.kind == "return" and any("loop body once" in t for t in x.trace)]
+    good = bool(o) and all(is_name(strip_pre(x.value), p) for x in o)
+    for x in o:
+        effs = [norm(strip_pre(e)) for e in x.effects]
+        good = good and any(e.startswith(f"<setitem>({p}.elts, ") and "self._update_name_to_constant(" in e for e in effs)
+    ctx.check(good, key(up, "tuple"), f"Dict[K, V] / Union[A, B]: every element of the tuple must be rewritten recursively: {[x.text()[:120] for x in o]}", up.loc(), okmsg="Tuple -> every element recursed")
